@@ -11,7 +11,7 @@
    These are the all-AST half of "hoisting does not mix up products"; the value half is
    OptProps.licm_product_value, the per-kernel half is the symbolic comparison of C17. *)
 From Coq Require Import ZArith List Bool String Lia.
-Require Import FFCX.LN FFCX.Opt.
+Require Import FFCX.LN FFCX.Opt FFCX.OptProps.
 Import ListNotations.
 
 Local Arguments hoists : simpl never.
@@ -137,5 +137,38 @@ Proof.
   assert (E : (k1, o1) = (k2, o2)) by (eapply nodup_snd_inj; eauto).
   inversion E; subst. split; [reflexivity|]. exists k2. split; assumption.
 Qed.
+
+
+(* value of a rewritten assignment: in any commutative monoid, if the temporary read by the rewritten product
+   holds the product of the hoisted factors, the rewritten product has the value of the original one; an
+   assignment that does not hoist is left as it was *)
+Section V.
+Variable M : Type.
+Variable mul : M -> M -> M.
+Variable one : M.
+Hypothesis mul_comm : forall a b, mul a b = mul b a.
+Hypothesis mul_assoc : forall a b c, mul (mul a b) c = mul a (mul b c).
+Hypothesis mul_1_l : forall a, mul one a = a.
+Variable den : expr -> M.
+
+Theorem rewrite_assign_value tab seen lv args s :
+  rewrite_assign temps inner outer tab seen (lv, args) = Some s ->
+  (forall c t keep hoist, lookup lv (occurrence lv seen) tab = Some c -> temp_id temps c = Some t ->
+      split_args inner args = Some (keep, hoist) ->
+      den (EAcc t [ESym outer]) = prod M mul one (map den hoist)) ->
+  exists args', s = SAssignAdd lv (EProd args')
+                /\ prod M mul one (map den args') = prod M mul one (map den args).
+Proof.
+  unfold rewrite_assign. intros H Htmp.
+  destruct (lookup lv (occurrence lv seen) tab) as [c|] eqn:El.
+  - destruct (split_args inner args) as [[keep hoist]|] eqn:Es; [|discriminate].
+    destruct (temp_id temps c) as [t|] eqn:Et; [|discriminate].
+    inversion H; subst. eexists. split; [reflexivity|].
+    rewrite map_app. cbn [map].
+    apply (licm_product_value M mul one mul_comm mul_assoc mul_1_l den inner args keep hoist); [exact Es|].
+    apply (Htmp c t keep hoist); auto.
+  - inversion H; subst. eexists. split; reflexivity.
+Qed.
+End V.
 
 End L.
